@@ -579,6 +579,31 @@ def pdf_font(variant: str, own_font: bool = False) -> tuple[bytes, dict]:
     return out, {"has": [tag, "end" + tag, "".join(str(g % 10) for g in gids)], "not": []}
 
 
+def pdf_colour_space(variant: str) -> tuple[bytes, dict]:
+    """A page with one tiny image XObject whose /ColorSpace is: a name (plain), an array with an indirect reference (iccbased-like: 'array'),
+    or a DeviceN array whose attributes dictionary holds a further indirect reference ('nested-dict')."""
+    tag = "isopdfcs" + variant.replace("-", "")
+    cs = {"plain": b"/DeviceGray", "array": b"[/Separation /Spot1 /DeviceRGB 7 0 R]",
+          "nested-dict": b"[/DeviceN [/Spot1] /DeviceRGB 7 0 R << /Subtype /DeviceN /Colorants << /Spot1 8 0 R >> >>]"}[variant]
+    content = f"BT /F2 12 Tf 50 750 Td ({tag}) Tj ET q 100 0 0 100 50 500 cm /Im0 Do Q BT /F2 12 Tf 50 400 Td (end{tag}) Tj ET".encode()
+    img, fn = b"\x10\x80\xc0\xff", b"{ dup dup }"
+    objs = [b"<< /Type /Catalog /Pages 2 0 R >>", b"<< /Type /Pages /Kids [3 0 R] /Count 1 >>",
+            b"<< /Type /Page /Parent 2 0 R /MediaBox [0 0 612 792] /Resources << /Font << /F2 5 0 R >> /XObject << /Im0 6 0 R >> >> /Contents 4 0 R >>",
+            b"<< /Length %d >>\nstream\n" % len(content) + content + b"\nendstream",
+            b"<< /Type /Font /Subtype /Type1 /BaseFont /Helvetica >>",
+            b"<< /Type /XObject /Subtype /Image /Width 2 /Height 2 /BitsPerComponent 8 /ColorSpace " + cs + b" /Length %d >>\nstream\n" % len(img) + img + b"\nendstream",
+            b"<< /FunctionType 4 /Domain [0 1] /Range [0 1 0 1 0 1] /Length %d >>\nstream\n" % len(fn) + fn + b"\nendstream",
+            b"[/Separation /Spot1 /DeviceRGB 7 0 R]"]
+    out, xref = b"%PDF-1.4\n", []
+    for i, o in enumerate(objs, 1):
+        xref.append(len(out))
+        out += b"%d 0 obj\n" % i + o + b"\nendobj\n"
+    x = len(out)
+    out += b"xref\n0 %d\n0000000000 65535 f \n" % (len(objs) + 1) + b"".join(b"%010d 00000 n \n" % p_ for p_ in xref)
+    out += b"trailer\n<< /Size %d /Root 1 0 R >>\nstartxref\n%d\n%%%%EOF\n" % (len(objs) + 1, x)
+    return out, {"has": [tag, "end" + tag], "not": []}
+
+
 # ------------------------------------------------------------------------------------------------------------ mail: sub-objects of different sizes, attachments the name alone cannot route
 def _mbox_wrap(messages: list[bytes]) -> bytes:
     return b"".join(b"From sender@iso.example Mon Jan  2 03:04:05 2023\n" + m.replace(b"\r\n", b"\n") + b"\n" for m in messages)
@@ -769,6 +794,7 @@ FAMILIES = {
     "unb-epub-last": ("epub", lambda v: unbalanced("epub-last", v), ".epub", UNBALANCED_FORMS),
     "unb-html": ("html", lambda v: unbalanced("html", v), ".html", UNBALANCED_FORMS),
     "unb-mhtml": ("mhtml", lambda v: unbalanced("mhtml", v), ".mhtml", UNBALANCED_FORMS),
+    "pdf-cs": ("pdf", pdf_colour_space, ".pdf", ["plain", "array", "nested-dict"]),     # not in any group: for the purity check only
     "pdf-font": ("pdf", pdf_font, ".pdf", ["A", "B", "C", "D"]),
     "pdf-font-own": ("pdf", lambda v: pdf_font(v, own_font=True), ".pdf", ["A", "B", "C", "D"]),
     "mbox-sized": ("mbox", lambda v: mail_sized("mbox", v), ".mbox", MAIL_SIZED + ["box"]),
@@ -796,12 +822,19 @@ def _rtf_variant(v: str):
     return (None if cp == "none" else int(cp)), (form or "plain")
 
 
+# features whose documents are known to expose an open defect of the library (the control twin of each is listed next to it): checks put the
+# feature into the mechanism key of whatever such a document shows, so that it can be told from everything else that happens to the format
+RISKY_FEATURES = {"pdf-shared-font-program": "pdf-own-font-program", "pdf-colour-space-nested-dictionary": "pdf-colour-space"}
+
+
 def feature(src, kind: str = "") -> str:
     """Mechanism-level name of a source: family + what is varied (never the individual variant), e.g. rtf-cp, docx-hf, odt-optional-parts."""
     import re
     if src[1] == "drop":
         return f"{kind or 'package'}-optional-parts-removed"
     fam, var = src[1], str(src[2]).split(":")[0]
+    if fam == "pdf-cs":
+        return "pdf-colour-space" + ("-nested-dictionary" if var == "nested-dict" else "")
     fixed = {"rtf-cp": "rtf-cp", "epub-multi": "epub-first-match-candidates", "html-multi": "html-first-match-candidates", "plain": "plain",
              "zip-mime": "archive-mime-fallback-members", "tar-mime": "archive-mime-fallback-members", "route": "router-mime-fallback-names",
              "pdf-font": "pdf-shared-font-program", "pdf-font-own": "pdf-own-font-program",
